@@ -788,6 +788,10 @@ Examples:
                 v.add(i); found = True; break
         if not found:
             collapse[i] = set((j,))
+        else: # merge any other group that is now connected through (i,j)
+            for m in [m for m in collapse if m != k and (i in (m,) or i in collapse[m] or j in (m,) or j in collapse[m])]:
+                v.update(collapse.pop(m)); v.add(m)
+            v.discard(k)
     return collapse
 
 
